@@ -248,6 +248,14 @@ def interp_axis_map(repo):
             st = st._parent
         if not (isinstance(st, ast.Assign) and isinstance(st.targets[0], ast.Subscript)):
             continue
+        from .c17 import _generic_site, generic_positions
+        gen = _generic_site(st, c, f, fa, f.params[0], axp)
+        if gen is not None:
+            # one site for every dimension: the 2-D rows of its position table
+            pos = generic_positions(f, gen[0], gen[1], f.params[0], axp)
+            out[0] = pos[(2, 0)]
+            out['else'] = pos[(2, 1)]
+            continue
         el = idx_tuple(st.targets[0], fa)
         if len(el) != 2 or ':' not in el:
             continue
